@@ -47,6 +47,11 @@ class HarnessError(RuntimeError):
     pass
 
 
+# finding (reported, not repaired): load_jugfile of the cached mode looks dependencies up among the EARLIER tasks only
+REFUSED = 'cached status refuses a jugfile whose tasks are not created in dependency order'
+REFUSED_CLASS = 'cached-status-rejects-late-created-dependency'
+
+
 def end_process():
     st = jug.task.Task.store
     if isinstance(st, memoize_store):
@@ -253,7 +258,8 @@ def run_history(spec, backend, root, rng, short):
             code, out, err = call_main(['status', env.jugfile, '--short'] + base)
             o['short'] = {'exit': code, 'line': parse_short(out), 'text': out[-300:]}
         code, out, err = call_main(['status', env.jugfile, '--cache', '--cache-file', cache_file] + base)
-        o['cached'] = {'exit': code, 'table': parse_table(out), 'text': out[-1500:], 'err': err[-300:]}
+        o['cached'] = {'exit': code, 'table': parse_table(out), 'text': out[-1500:], 'err': err[-300:],
+                       'refused': (code == 1 and 'Could not build dependency graph' in err)}
         try:
             o['db'] = read_cache(cache_file)
         except Exception as ex:
@@ -275,6 +281,11 @@ def oracle(info, otasks, h_of, steps):
         rows, total = spec_tables(otasks, h_of, stored, locks)
         for mode in ('plain', 'cached'):
             t = o[mode]['table']
+            if mode == 'cached' and o['cached']['refused']:
+                if k == 0:
+                    bad.append((REFUSED, 'the table of the uncached command: %s' % (o['plain']['table'],),
+                                'exit 1: ' + o['cached']['err'][:120]))
+                continue
             if t is None:
                 bad.append(('%s status output at call %d' % (mode, k), 'a status table', o[mode]['text'][-300:] + o[mode]['err']))
                 continue
@@ -319,19 +330,22 @@ Definition ostat_eqb (a b : option cat) : bool := option_eqb cat_eqb a b.
 Definition centry_eqb (a b : centry) : bool :=
   Pos.eqb (ce_name a) (ce_name b) && Pos.eqb (ce_hash a) (ce_hash b) &&
   ostat_eqb (ce_status a) (ce_status b) && list_eqb Nat.eqb (ce_deps a) (ce_deps b).
-(* one state of the history: stored keys, locks, plain table, cached table, cache file, check *)
-Definition step := (list tid * list (tid * lockst) * table * table * cache_db * nat)%type.
+(* one state of the history: stored keys, locks, plain table, cached call (None: it exited 1 with
+   "Could not build dependency graph!", else its table and the cache file afterwards), check *)
+Definition step := (list tid * list (tid * lockst) * table * option (table * cache_db) * nat)%type.
 Fixpoint run_hist (d : dag) (file : option cache_db) (h : list step) : bool :=
   match h with
   | [] => true
-  | (stl, lkl, plain, cached, db_obs, chk) :: r =>
+  | (stl, lkl, plain, cobs, chk) :: r =>
       let st := st_of stl in
       let lk := lk_of lkl in
       check_table d (status_events d st lk) plain &&
       Nat.eqb (check d st) chk &&
-      match cached_call d file st lk with
-      | None => false
-      | Some (ev, db') => check_table d ev cached && list_eqb centry_eqb db' db_obs && run_hist d (Some db') r
+      match cached_call d file st lk, cobs with
+      | None, None => run_hist d file r
+      | Some (ev, db'), Some (cached, db_obs) =>
+          check_table d ev cached && list_eqb centry_eqb db' db_obs && run_hist d (Some db') r
+      | _, _ => false
       end
   end.
 Definition run_case (c : dag * list step) : bool := wf_dagb (fst c) && run_hist (fst c) None (snd c).'''
@@ -373,16 +387,21 @@ def case_lit(info, steps):
     dag = '[' + ';'.join('(%d,%d,%s)' % (hid(h), nid(n), plist(hid(x) for x in deps)) for h, n, deps in info) + ']'
     lits = []
     for o in steps:
-        p, c = table(o['plain']), table(o['cached'])
-        if p is None or c is None or o['db'] is None or o['check'] not in (0, 1):
+        p = table(o['plain'])
+        if p is None or o['check'] not in (0, 1):
             return None, ids, nids
-        if any(n not in nids for n, _, _, _ in o['db']):
-            return None, ids, nids
-        db = '[' + ';'.join('(%d,%d,%s,%s)' % (nid(n), hid(h), 'None' if s is None else '(Some %s)' % s,
-                                                '[' + ';'.join(natlit(j) for j in dl) + ']')
-                            for n, h, s, dl in o['db']) + ']'
+        if o['cached']['refused']:
+            cobs = 'None'
+        else:
+            c = table(o['cached'])
+            if c is None or o['db'] is None or any(n not in nids for n, _, _, _ in o['db']):
+                return None, ids, nids
+            db = '[' + ';'.join('(%d,%d,%s,%s)' % (nid(n), hid(h), 'None' if s is None else '(Some %s)' % s,
+                                                    '[' + ';'.join(natlit(j) for j in dl) + ']')
+                                for n, h, s, dl in o['db']) + ']'
+            cobs = '(Some (%s, %s))' % (c, db)
         lk = '[' + ';'.join('(%d,%s)' % (hid(h), 'Failed' if v == 'failed' else 'Held') for h, v in o['locks']) + ']'
-        lits.append('(%s, %s, %s, %s, %s, %s)' % (plist(hid(h) for h in o['stored']), lk, p, c, db, natlit(o['check'])))
+        lits.append('(%s, %s, %s, %s, %s)' % (plist(hid(h) for h in o['stored']), lk, p, cobs, natlit(o['check'])))
     return '(%s, [%s])' % (dag, ';\n   '.join(lits)), ids, nids
 
 
@@ -392,7 +411,7 @@ def summarize(steps):
     for o in steps:
         s = {'stored': o['stored'], 'locks': o['locks'], 'check': o['check'],
              'plain': {'exit': o['plain']['exit'], 'table': o['plain']['table']},
-             'cached': {'exit': o['cached']['exit'], 'table': o['cached']['table']}, 'db': o['db']}
+             'cached': {'exit': o['cached']['exit'], 'table': o['cached']['table'], 'refused': o['cached']['refused']}, 'db': o['db']}
         if 'short' in o:
             s['short'] = o['short']
         out.append(s)
@@ -431,6 +450,10 @@ def run(ck):
                 meta = {'spec': spec, 'backend': backend, 'short': short, 'graph': info,
                         'history': [[o['stored'], o['locks']] for o in steps], 'observed': summarize(steps)}
                 for clause, exp, got in oracle(info, otasks, h_of, steps):
+                    if clause == REFUSED:
+                        ck.violation({'kind': 'impl-violation', 'what': REFUSED, 'class': REFUSED_CLASS,
+                                      'clause': clause, 'expected': exp, 'observed_value': got, **meta})
+                        continue
                     ck.violation({'kind': 'impl-violation', 'what': 'status/check on %s: %s' % (backend, re.sub(r' at call \d+', '', clause)),
                                   'clause': clause, 'expected': exp, 'observed_value': got, **meta})
                 lit, ids, nids = case_lit(info, steps)
@@ -459,6 +482,10 @@ def run(ck):
                 ck.count('history length %d' % len(steps))
                 if not closed_all:
                     ck.count('history with a state that is not dependency-closed')
+                if not G.created_in_order(info):
+                    ck.count('graph NOT created in dependency order (container filled after its consumer)')
+                if steps and steps[0]['cached']['refused']:
+                    ck.count('cached status exited 1: could not build dependency graph')
                 if len(set(h for h, _, _ in info)) < len(info):
                     ck.count('graph with two objects of one hash')
                 if any(any(s == 'Ready' for _, _, s, _ in (o['db'] or [])) for o in steps[:-1]):
@@ -514,7 +541,8 @@ def replay(obj):
                                                [(ids.get(h, h[:6]), v) for h, v in o['locks']]))
         print('   plain  (Failed, Waiting, Ready, Complete, Active):', o['plain']['table'], 'exit', o['plain']['exit'])
         print('   cached (Failed, Waiting, Ready, Complete, Active):', o['cached']['table'], 'exit', o['cached']['exit'])
-        print('   check exit', o['check'], ' cache rows', [(s, dl) for _, _, s, dl in (o['db'] or [])])
+        print('   check exit', o['check'], ' cache rows', [(s, dl) for _, _, s, dl in (o['db'] or [])],
+              ' CACHED STATUS EXITED 1 (could not build dependency graph)' if o['cached']['refused'] else '')
     bad = oracle(info, otasks, h_of, steps)
     for clause, exp, got in bad:
         print('VIOLATED %s: expected %s observed %s' % (clause, exp, got))
